@@ -156,9 +156,13 @@ def _symx_call(obj, name, /, *args, **kw):
     return getattr(obj, name)(*args, **kw)
 
 
+_STR_METHOD_VALUES = frozenset(["startswith", "endswith", "find", "rfind", "index", "count", "join", "replace", "split", "rsplit", "partition", "rpartition",
+                                "strip", "lstrip", "rstrip", "format", "__contains__", "__eq__"])
+
+
 def _symx_attr(obj, name):
     """`re.search` / `str.strip` taken as a value: a callable that still routes through _symx_call"""
-    if obj is _re or obj is str:
+    if obj is _re or obj is str or isinstance(obj, _PATTERN) or (type(obj) is str and name in _STR_METHOD_VALUES):
         def bound(*a, **k):
             return _symx_call(obj, name, *a, **k)
         bound.__name__ = name
